@@ -1094,7 +1094,22 @@ class FileStorage(
             tid = decodebytes(transaction_id + b'\n')
             assert len(tid) == 8
             tpos = self._txn_find(tid, 1)
-            tindex = self._txn_undo_write(tpos)
+            start = self._tfile.tell()
+            ndirty = len(self.dirty_oids)
+            try:
+                tindex = self._txn_undo_write(tpos)
+            except:  # noqa: E722 do not use bare 'except'
+                # An undo that fails changes nothing: take back the
+                # records (and blob files) written for the objects that
+                # came before the one that cannot be undone.  The caller
+                # may go on with, and commit, this transaction.
+                self._tfile.seek(start)
+                self._tfile.truncate()
+                while len(self.dirty_oids) > ndirty:
+                    oid, serial = self.dirty_oids.pop()
+                    remove_committed(
+                        self.fshelper.getBlobFilename(oid, serial))
+                raise
             self._tindex.update(tindex)
             return self._tid, tindex.keys()
 
